@@ -16,10 +16,11 @@ CODE_TEXT = {
     "5": "an unrequested reply was refused with an error other than AccessDenied",
     "6": "a call was passed on although its sender already had max_replies_per_connection open calls",
     "7": "destination without owner not answered by NameHasNoOwner / ServiceUnknown",
+    "8": "a message to an existing owner was refused without any documented reason (requested-reply rule, fds, outstanding serial, reply limit)",
     "9": "a connection was closed by the bus / unknown observation",
 }
-C09_CODES = {"1", "4", "5", "6", "9"}
-C05_CODES = {"2", "3", "4", "7", "9"}
+C09_CODES = {"1", "4", "5", "6", "8", "9"}
+C05_CODES = {"2", "3", "4", "7", "8", "9"}
 
 
 def cfg_str(cfg):
@@ -141,6 +142,15 @@ def attributable_to_f7(code_tok, step_event, step_tok, stale, consumed):
         return ok
     if code == "6" and f[0] == "S":
         return any(k[0] == int(f[1]) for k in consumed)
+    if code == "5" and f[0] == "S":
+        owner = code_tok.split("@")[1] if "@" in code_tok else "x"
+        return owner != "x" and (int(owner), int(f[1]), int(f[6])) in stale
+    if code == "8" and f[0] == "S":
+        # refused by the duplicate / limit test because of a slot the ledger does not know (stale), or delivered state the
+        # ledger still believes in (consumed)
+        owner = code_tok.split("@")[1] if "@" in code_tok else "x"
+        reply_key = (int(owner), int(f[1]), int(f[6])) if owner != "x" else None
+        return any(k[0] == int(f[1]) for k in stale) or any(k[0] == int(f[1]) for k in consumed) or reply_key in consumed
     return False
 
 
